@@ -32,14 +32,14 @@ type marker struct {
 
 // World is one harness instance: a BESS server, at most one running agent, scripted peers.
 type World struct {
-	Dir           string
-	AgentBin      string
-	Cfg           agent.Cfg
-	Bess          *fakebess.Server
-	P4            *fakep4.Server // the switch of the UP4 datapath (nil on BESS)
-	p4n           *p4names
-	p4Seen        int // updates already reported in a trace line
-	p4PktSeen     int // packet-outs already reported
+	Dir       string
+	AgentBin  string
+	Cfg       agent.Cfg
+	Bess      *fakebess.Server
+	P4        *fakep4.Server // the switch of the UP4 datapath (nil on BESS)
+	p4n       *p4names
+	p4Seen    int // updates already reported in a trace line
+	p4PktSeen int // packet-outs already reported
 	// P4Fault, when set, makes the switch fail one write of the next request (one shot)
 	P4Fault  *P4FaultPlan
 	LastRpcs int // Write RPCs the switch received during the last request
@@ -49,7 +49,7 @@ type World struct {
 	KillAtWrite int
 	killHit     bool
 	// UeBySeid: UE address of each session (C13 on UP4: a datapath report is a digest carrying the UE address)
-	UeBySeid map[uint64]uint32
+	UeBySeid      map[uint64]uint32
 	Agent         *agent.Agent
 	Peers         map[string]*pfcpx.Peer
 	UpTok         *pfcpx.Toks
@@ -71,7 +71,8 @@ type World struct {
 	RespWait      time.Duration
 	Quiet         time.Duration // silence window after each step
 	Died          bool
-	SnapEvery     bool // attach the guarded state snapshot to every recorded step
+	SchedMaxHold  time.Duration // upper limit of the time the random scheduler stalls its victim class (0: none)
+	SnapEvery     bool          // attach the guarded state snapshot to every recorded step
 	evMu          sync.Mutex
 	evLog         []agent.Event // verifPoint events reported by the agent
 	pendingWait   func()
@@ -164,6 +165,16 @@ func NewWorld(dir, agentBin, tracePath string, cfg agent.Cfg, run int) (*World, 
 func (w *World) Close() {
 	if w.Agent != nil {
 		w.Agent.Kill()
+	}
+
+	if f := os.Getenv("VERIF_DEBUG_EVENTS"); f != "" { // debugging aid: the scheduling points the agent reported
+		w.evMu.Lock()
+		var sb strings.Builder
+		for _, e := range w.evLog {
+			fmt.Fprintf(&sb, "%d gated=%v %s %s\n", e.Seq, e.Gated, e.Name, e.Args)
+		}
+		w.evMu.Unlock()
+		_ = os.WriteFile(f, []byte(sb.String()), 0o644)
 	}
 
 	for _, p := range w.Peers {
@@ -906,6 +917,11 @@ func (w *World) StartRandomScheduler(seed int64, maxDelay time.Duration) *Random
 		victims := []string{"", "conn.shutdown", "node.stop", "conn.hb", "conn.serve", "conn.reader", "sess.", "conn.new", "node.done"}
 		victim := victims[rng.Intn(len(victims))]
 		hold := time.Duration(20+rng.Intn(200)) * time.Millisecond
+		// with heartbeats on, a class of steps held for longer than the heartbeat budget makes the agent give the
+		// peer up (e.g. the reader goroutine is started after "conn.new.afterFirst"): that is the schedule's doing
+		if w.SchedMaxHold > 0 && hold > w.SchedMaxHold {
+			hold = w.SchedMaxHold
+		}
 
 		for {
 			select {
